@@ -19,7 +19,7 @@ import json  # noqa: F401
 from sim import env, fingerprint as fp, gen, ops, sched
 
 PROP = 'C14'
-MODES = ('dense', 'mixed', 'purge', 'match', 'sweep')
+MODES = ('dense', 'mixed', 'purge', 'match', 'sweep', 'msweep')
 BOUNDS = (1, 2, 3, 5, 8, 500)
 
 # Patterns that pack the five "special" functional pseudo-classes densely (S1 of DESIGN.md).
@@ -192,7 +192,8 @@ def make_policy(spec, rng):
     if n == 'bernoulli':
         return sched.Bernoulli(rng, spec['p'])
     if n == 'k-preempt':
-        return sched.KPreempt(rng, {(a, b): c for a, b, c in spec['points']}, spec.get('first'))
+        return sched.KPreempt(rng, {(a, b): c for a, b, c in spec['points']}, spec.get('first'),
+                              {(a, fn, ln): [k, hold] for a, fn, ln, k, hold in spec.get('sites', ())})
     if n == 'after-return':
         return sched.AfterReturn(rng, spec['p'], spec.get('p_other', 0.0))
     if n == 'round-robin':
@@ -213,21 +214,30 @@ class _Counter:
         self.prefix = prefix
         self.after = False
         self.after_return_steps = []
+        self.sites = {}     # (function, line) -> steps at which the site was reached (capped)
+
+    def _site(self, frame):
+        lst = self.sites.setdefault((frame.f_code.co_name, frame.f_lineno), [])
+        if len(lst) < 400:
+            lst.append(self.n)
 
     def glob(self, frame, event, arg):
         if event == 'call' and frame.f_code.co_filename.startswith(self.prefix):
             self.n += 1
             self.after = False
+            self._site(frame)
             return self.local
         return None
 
     def local(self, frame, event, arg):
         if event == 'line':
             self.n += 1
+            self._site(frame)
             if self.after:
                 self.after_return_steps.append(self.n)
                 self.after = False
         elif event == 'return':
+            self.n += 1     # the simulator counts a step at 'return' events too
             self.after = True
         return self.local
 
@@ -253,6 +263,8 @@ def reference_pass(sv, ctx, workload, count_steps=True):
                 ss.append(c.n)
                 if workload.get('mode') == 'sweep':
                     workload.setdefault('_after_return', {})[(len(ref), len(rr))] = c.after_return_steps
+                elif workload.get('mode') == 'msweep' and not ref and not rr:
+                    workload['_sites'] = sorted([k[0], k[1], len(v)] for k, v in c.sites.items())
             else:
                 res = ops.safe_run(ctx, op)
                 ss.append(0)
@@ -277,6 +289,8 @@ def _reference_child(sv, workload, count_steps):
             out = reference_pass(sv, ctx, workload, count_steps)
             if workload.get('mode') == 'sweep':
                 out = tuple(out) + ({f'{a}:{b}': v for (a, b), v in workload.pop('_after_return', {}).items()},)
+            elif workload.get('mode') == 'msweep':
+                out = tuple(out) + (workload.pop('_sites', []),)
             return out
     except env.SlowOperation:
         sys.settrace(None)
@@ -513,9 +527,115 @@ def run_sweep(sv, index, bound, active=None):
     return res
 
 
+# ---------------------------------------------------------------------------
+# matcher-side site sweep: the victim is a query, parked once at every distinct code site it reaches (first time it
+# gets there, and once more half-way through its visits) while a peer runs one whole query of the same family
+# ---------------------------------------------------------------------------
+
+_MSWEEP_DOCS = [
+    _SWEEP_DOC,
+    {'markup': ('<html lang="de"><head><meta http-equiv="content-language" content="en"></head><body><form><input '
+                'type="radio" name="r"><input type="radio" name="R" checked><input type="submit"><input type="number" '
+                'min="1" max="4" value="9" required></form><div dir="ltr"><p class="a" lang="en">x</p><p>hello</p><p '
+                'class="a b">hello world</p><a href="#y">m</a></div><ul><li class="a">1</li><li>2</li><li class="a">3</li>'
+                '<li>4</li><li>5</li></ul></body></html>'),
+     'parser': 'html.parser', 'mut': []},
+]
+MSWEEP_FAMILIES = [
+    ('lang', [':lang(de)', ':lang(en)', 'p:lang("*-DE", en)', ':not(:lang(de))']),
+    ('nth', ['li:nth-child(odd)', 'li:nth-child(2n+1)', 'p:nth-of-type(2)', ':nth-child(2 of .a)', ':nth-last-child(-n+2)']),
+    ('dir', [':dir(rtl)', ':dir(ltr)', 'p:dir(ltr)']),
+    ('form', [':default', ':indeterminate', ':checked', ':in-range, :out-of-range', ':required']),
+    ('attr', ['[type=radio]', '[type="RADIO" i]', '[class~=a]', '[href^="#"]', '[lang|=de]']),
+    ('text', [':-soup-contains(hello)', ':-soup-contains-own(x)', 'p:empty, li:not(:empty)']),
+    ('rel', [':has(> p)', 'div > p', 'p ~ a', ':not(div p)', ':is(p, a):first-child', 'li:has(+ li.a)']),
+    ('root', [':root', ':root > body', 'html:first-child', ':root :link']),
+]
+MSWEEP_BATCH = 40
+
+
+def msweep_pairs():
+    keys = []
+    pairs = []
+    for fam, pats in MSWEEP_FAMILIES:
+        base = len(keys)
+        keys.extend({'pattern': p_, 'ns': None, 'custom': None, 'flags': 0} for p_ in pats)
+        k0, k1 = base, base + 1
+        q = lambda op, k, d, t=-1, form='precompiled': dict(  # noqa: E731
+            {'op': op, 'key': k, 'doc': d, 'target': t, 'form': form}, **({'limit': 0} if op == 'select' else {}))
+        # same pattern on another document, the shared state primed with a sibling pattern first
+        pairs.append((fam, q('select', k0, 0), q('select', k0, 1), q('select', k1, 1)))
+        # a sibling pattern asked about one element while the victim walks the document
+        pairs.append((fam, q('select', k0, 0), q('match', k1, 0, 9), None))
+        # the victim asks about one element (and compiles inside the call), the peer selects with the same pattern
+        pairs.append((fam, q('match', k0, 1, 12, 'module'), q('select', k0, 0, -1, 'compiled'), None))
+        if len(pats) > 2:
+            pairs.append((fam, q('select', base + 2, 1), q('closest', base + 2, 0, 14), q('filter', k0, 0)))
+    return keys, pairs
+
+
+def run_msweep(sv, index, bound):
+    from sim import runner
+    keys, pairs = msweep_pairs()
+    pi, batch = index % len(pairs), index // len(pairs)
+    fam, victim, peer, prime = pairs[pi]
+    workload = {'mode': 'msweep', 'keys': keys, 'docs': _MSWEEP_DOCS, 'programs': [[victim], ([prime] if prime else []) + [peer]],
+                'lower_pressure': 0, 'opcodes': False, 'pair': pi, 'family': fam}
+    try:
+        got = runner.isolated(_reference_child, sv, workload, True, hang_s=20)
+    except runner.IsolatedTimeout:
+        return {'discarded': 'reference-pass-killed-at-deadline(stuck-in-C-code)'}
+    if isinstance(got, dict):
+        return got
+    length = got[1][0][0]
+    sites = got[3]      # [function, line, visits] of the victim query run alone
+    # every site at its first visit, then half-way through its visits, then at its last visit
+    allp = ([[fn, ln, 1] for fn, ln, n in sites] + [[fn, ln, n // 2 + 1] for fn, ln, n in sites if n > 1]
+            + [[fn, ln, n] for fn, ln, n in sites if n > 2])
+    points = allp[batch * MSWEEP_BATCH:(batch + 1) * MSWEEP_BATCH]
+    if not points:
+        return {'discarded': 'sweep-batch-beyond-end-of-operation'}
+    res = None
+    digests = []
+    tot_steps = tot_sw = 0
+    for fn, ln, k in points:
+        # the peer's priming query (if any) runs right after the victim's call has begun
+        spec = {'name': 'k-preempt', 'points': [[0, 2, 'op']] if prime else [], 'sites': [[0, fn, ln, k, 'op']], 'first': 0}
+        try:
+            r = runner.isolated(execute, sv, workload, spec, 0, bound, None, False, got[:3], hang_s=60)
+        except runner.IsolatedTimeout:
+            continue
+        digests.append(r['digest'])
+        tot_steps += r['steps']
+        tot_sw += r['switches']
+        if res is None or (r['violation'] and not res['violation']):
+            res = r
+        if r['violation']:
+            break
+    if res is None:
+        return {'discarded': 'sweep-batch-beyond-end-of-operation'}
+    res = dict(res)
+    res['steps'] = tot_steps
+    res['switches'] = tot_sw
+    if not res['violation']:
+        res['digest'] = fp.h(digests, 12)
+    res['probes'] = dict(res['probes'])
+    res['probes']['msweep_injection_points'] = len(digests)
+    res['probes']['msweep_distinct_sites_of_victim'] = len(sites) if batch == 0 else 0
+    res['workload'] = workload
+    res['bound'] = bound
+    res['sweep'] = {'kind': 'matcher-site-sweep', 'pair': pi, 'family': fam, 'batch': batch, 'victim': victim, 'peer': peer,
+                    'prime': prime, 'victim_steps': length, 'distinct_sites': len(sites), 'points_total': len(allp)}
+    return res
+
+
 def run_seeded(sv, run_seed, mode, bound, index=None, active=None):
     """One seeded run: workload, policy and schedule all derive from ``run_seed``."""
 
+    if mode == 'msweep':
+        res = run_msweep(sv, index or 0, bound)
+        res['run_seed'] = run_seed
+        return res
     if mode == 'sweep':
         res = run_sweep(sv, index or 0, bound, active)
         res['run_seed'] = run_seed
@@ -570,6 +690,16 @@ def plan(tier):
     # tier walks the whole catalogue, the quick tier the purge-by-peer pairs (after-return points first)
     cfgs.append({'name': 'sweep-k500', 'mode': 'sweep', 'bound': 500, 'chunk': 12,
                  'nruns': 25 * 14 if tier != 'thorough' else 75 * 190, 'pairs': 25 if tier != 'thorough' else 75})
+    # matcher-side site sweep: every pair's victim query is parked once (thorough: up to three times) at every distinct
+    # (function, line) site it reaches while the peer runs a whole query of the same family
+    npairs = len(msweep_pairs()[1])
+    cfgs.append({'name': 'msweep-k500', 'mode': 'msweep', 'bound': 500, 'chunk': 8,
+                 'nruns': npairs * (8 if tier != 'thorough' else 16)})
+    # the systematic sweeps are dispatched first in every round: a deadline cut then only shortens the random sampling
+    for c in cfgs:
+        if c['mode'] in ('sweep', 'msweep'):
+            c['priority'] = True
+            c['det_runs'] = 3
     return {'budget_s': budget, 'configs': cfgs, 'minimise_budget': 300}
 
 
